@@ -184,8 +184,12 @@ def replay_clip(payload):
         pass
     ln, col, end_ln, end_col = (_arg(m, k, info) for k in ('ln', 'col', 'end_ln', 'end_col'))
     # line lengths are uninterpreted in the model: try a few shapes
-    for width in (0, 1, 3, 7):
-        src = '\n'.join(['#' + 'x' * max(0, width - 1) if width else '' for _ in range(n)])
+    def line(width):
+        return '#' + 'x' * (width - 1) if width else ''
+    shapes = [[w] * n for w in (0, 1, 3, 7)] + [[2 * i + 1 for i in range(n)], [2 * (n - i) + 1 for i in range(n)],
+                                                [(5 * i + 3) % 7 for i in range(n)]]
+    for widths in shapes:
+        src = '\n'.join(line(w) for w in widths)
         f = FST(src, 'exec')
         args = (ln, col, end_ln, end_col)
         try:
@@ -205,7 +209,7 @@ def replay_clip(payload):
             if tuple(got) != tuple(exp):
                 return {'call': f'clip_src_loc(FST({src!r}), {args})', 'observed': got, 'expected': exp,
                         'reproduced': True}
-    return {'reproduced': False, 'note': 'model did not reproduce on 4 line shapes'}
+    return {'reproduced': False, 'note': 'model did not reproduce on 7 line shapes'}
 
 
 # ---------------------------------------------------------------------------------------------------------------------
